@@ -109,6 +109,8 @@ def run(ck, tier):
     F = factsmod.Facts("ws")
     from . import influence as _infl
     _infl.run(ck, F, 'C13')
+    from . import mustpass as _mp
+    _mp.run(ck, F, 'C13')
     from . import c13x
     c13x.run_bounds(ck, F)
     c13x.run_narrowing(ck, F)
